@@ -105,14 +105,14 @@ def check_matrix_shape(D, n, what):
 # ------------------------------------------------------------------------------------------------
 # sub 'shells'
 
-_shell = st.sampled_from(["s", "p", "d", "p", "d", "f"])
+_shell = st.sampled_from(["d", "p", "s", "d", "p"])
 
 
 @st.composite
 def shells_case(draw):
     sym = draw(st.lists(_shell, min_size=1, max_size=3))
-    if sym.count("f") > 1:
-        sym = [s for s in sym if s != "f"] + ["f"]
+    if draw(st.sampled_from([False, False, False, True])):      # the sympy evaluation of an f matrix costs ~0.5 s
+        sym[draw(st.integers(0, len(sym) - 1))] = "f"
     pad = draw(st.booleans())
     symbol = (" ; " if pad else ";").join(sym)
     g1 = draw(rot_spec)
@@ -464,7 +464,7 @@ def check_dwann(case):
 
 
 SUBS = [
-    Sub("shells", shells_case(), check_shells, quick=48, thorough=1300, budget_quick=70, budget_thorough=500),
-    Sub("hybrids", hybrids_case(), check_hybrids, quick=64, thorough=1600, budget_quick=60, budget_thorough=400),
-    Sub("dwann", dwann_case(), check_dwann, quick=40, thorough=700, budget_quick=70, budget_thorough=500),
+    Sub("shells", shells_case(), check_shells, quick=40, thorough=2400, budget_quick=45, budget_thorough=500),
+    Sub("hybrids", hybrids_case(), check_hybrids, quick=56, thorough=3200, budget_quick=30, budget_thorough=300),
+    Sub("dwann", dwann_case(), check_dwann, quick=32, thorough=1600, budget_quick=45, budget_thorough=500),
 ]
